@@ -838,22 +838,8 @@ def replay(ctx, path):
 # ---- search aid only: python port of Model/TokenGen.placements (the verdict on these cases comes from Coq)
 
 def _is_single_line_comment(content):
-    if not content.startswith("--["):
-        return True
-    rest = content[3:]
-    k = rest.find("[")
-    if k < 0:
-        return True
-    b = content.encode("utf-8")
-    if k < 3:
-        return False
-    try:
-        sub = b[3:k].decode("utf-8")
-    except UnicodeDecodeError:
-        return False
-    if k > len(b):
-        return False
-    return not all(ch == "=" for ch in sub)
+    # /repo fc507f0: a long comment iff `--[` `=`* `[`
+    return re.match(r"--\[=*\[", content) is None
 
 
 def displaced_tokens(src, trace):
